@@ -50,6 +50,7 @@ def generate(st):
         'unordered': sw.random() < 0.3,        # a version need not list its observation dates in ascending order
         'stamp_offset': sw.choice([0, 0, 0, 0, 3600, 86400, 300 * 86400]),     # publishers may stamp ahead of the clock
         'ints_first': sw.choice([1, 2, 99]),     # with 'ints': only the first publication(s) are integer series, revisions need not be whole
+        'ns_stamps': sw.random() < 0.08,
         'obs_base': sw.choice(['past', 'past', 'past', 'straddle', 'future']),     # where the observation dates lie relative to the stamps
         'mirror': sw.random() < 0.25,          # a second, independent store receives every version right after the first
         'branching': sw.random() < 0.3,        # a second consumer keeps an earlier store object and catches up later
@@ -276,6 +277,19 @@ def execute(trace, ctx=None):
         return s
 
     mirror = {'store': None}
+    ns_mode = bool(cfg.get('ns_stamps')) and not cfg.get('stamp_offset')
+
+    def cur_stamp():
+        st_ = SimClock.now + datetime.timedelta(seconds=cfg.get('stamp_offset', 0))
+        if ns_mode:
+            # publishers stamp with pandas Timestamps at nanosecond resolution: two stamps may fall inside one microsecond
+            state['pubs'] = state.get('pubs', 0) + 1
+            st_ = pd.Timestamp(st_) + pd.Timedelta(nanoseconds=[100, 200, 200, 900][state['pubs'] % 4])
+            if state.get('last_ns') is not None and st_ < state['last_ns']:
+                st_ = state['last_ns']          # publication stamps never decrease (the property's precondition)
+            state['last_ns'] = st_
+            res.probe('nanosecond-stamps')
+        return st_
 
     def logged(msg):
         merge_log.append(msg)
@@ -307,7 +321,7 @@ def execute(trace, ctx=None):
         elif state['reads'] % 5 == 3:
             Tl = pd.Timestamp(T)
             res.probe('asof-as-Timestamp')
-        elif state['reads'] % 5 == 4:
+        elif state['reads'] % 5 == 4 and not (isinstance(T, pd.Timestamp) and T.nanosecond):
             import numpy as np
             Tl = np.datetime64(T)
             res.probe('asof-as-datetime64')
@@ -411,13 +425,13 @@ def execute(trace, ctx=None):
                 vals = [(i, dec(v)) for i, v in op['vals'] if i < n]
                 if not vals:
                     continue
-                stamp = SimClock.now + datetime.timedelta(seconds=cfg.get('stamp_offset', 0))
+                stamp = cur_stamp()
                 if cfg.get('stamp_offset'):
                     res.probe('stamp-ahead-of-clock')
                 s = series(op['vals'] if all(i < n for i, _ in op['vals']) else [[i, v] for i, v in op['vals'] if i < n], op.get('named', False))
-                if op['mode'] == 'explicit' or store is None or cfg.get('stamp_offset'):
+                if op['mode'] == 'explicit' or store is None or cfg.get('stamp_offset') or ns_mode:
                     # the first version has to be stamped explicitly: bi_merge(None, plain) would stamp it too, exercise both
-                    if op['mode'] == 'implicit' and not cfg.get('stamp_offset'):
+                    if op['mode'] == 'implicit' and not cfg.get('stamp_offset') and not ns_mode:
                         new_store = lib(lambda: bi_merge(None, s), 'bi_merge(None, series)')
                         res.probe('implicit-now-stamp')
                         msg = new_store
@@ -479,7 +493,7 @@ def execute(trace, ctx=None):
                     after_publication(stamp)
                 _check_store(store, model, k)
             elif kind == 'publish_many':
-                stamp = SimClock.now + datetime.timedelta(seconds=cfg.get('stamp_offset', 0))
+                stamp = cur_stamp()
                 versions = []
                 for vs in op['versions']:
                     vals = [(i, dec(v)) for i, v in vs if i < n]
@@ -528,7 +542,7 @@ def execute(trace, ctx=None):
                 # today, two of them exchanged
                 if store is None:
                     continue
-                stamp = SimClock.now + datetime.timedelta(seconds=cfg.get('stamp_offset', 0))
+                stamp = cur_stamp()
                 if model.stamps() and stamp < model.stamps()[-1]:
                     continue
                 cur = model.read_last(stamp)
